@@ -293,14 +293,18 @@ func init() {
 	// the listed types removed AND differential against the unfiltered decode of the same datagram.
 	spaces["sflow.filter"] = func(tier string) mck.Space {
 		all := sampleAlphabet(true)
-		pick := map[string]bool{"flow{raw}": true, "flow{sw}": true, "flow{}": true, "counter{gen}": true, "counter{vg,vlan,proc}": true, "unknown3/0": true, "unknown4/8": true, "vendor(4413:1)/8": true}
+		pick := map[string]bool{"flow{raw}": true, "flow{sw}": true, "flow{}": true, "counter{gen}": true, "counter{vg,vlan,proc}": true, "unknown3/0": true, "unknown4/8": true, "vendor(4413:1)/8": true,
+			"flow{raw,sw,rt6}": true}
 		var al []namedSample
 		for _, a := range all {
 			if pick[a.name] {
 				al = append(al, a)
 			}
 		}
-		filters := [][]uint32{{}, {1}, {2}, {3}, {1, 2}, {2, 3}, {1, 3}, {1, 2, 3}, {0}, {7}, {4413<<12 | 1}, {4294967295}}
+		filters := [][]uint32{{}, {1}, {2}, {3}, {1, 2}, {2, 3}, {1, 3}, {1, 2, 3}, {0}, {7}, {4413<<12 | 1}, {4294967295},
+			// numbers that are RECORD formats inside samples (flow: 1001 switch, 1002 router; counter: 4 vg, 5 vlan, 1001 processor):
+			// the filter is about sample types only and must not reach into the samples it lets through
+			{1001}, {1002}, {1001, 1002}, {5}, {4, 1001}, {2, 1001, 1002}}
 		n := uint64(len(al) + 1)
 		dims := mck.Radix{n, n, n, uint64(len(filters))}
 		return mck.FuncSpace{N: dims.Size(), F: func(idx uint64, c *mck.Ctx) {
